@@ -722,6 +722,15 @@ theorem frame_step (h : Heap) (op : Op) (hm : op.mutates = false) : h.Extends (s
     split
     · split <;> exact Heap.Extends.refl h
     · exact Heap.Extends.refl h
+  | callVec r env lens =>
+    simp only [step]
+    split
+    · split
+      · split
+        · split <;> exact Heap.Extends.refl h
+        · exact Heap.Extends.refl h
+      · exact Heap.Extends.refl h
+    · exact Heap.Extends.refl h
   | partialEval r σ =>
     simp only [step]
     split
@@ -947,6 +956,15 @@ theorem wf_step (h : Heap) (hwf : h.WF) (op : Op) : (step h op).1.WF := by
     split
     · split <;> exact hwf
     · exact hwf
+  | callVec r env lens =>
+    simp only [step]
+    split
+    · split
+      · split
+        · split <;> exact hwf
+        · exact hwf
+      · exact hwf
+    · exact hwf
   | partialEval r σ =>
     simp only [step]
     split
@@ -979,6 +997,124 @@ theorem wf_run (h : Heap) (hwf : h.WF) (ops : List Op) : (run h ops).1.WF := by
   | cons op ops ih => rw [run_cons]; exact ih _ (wf_step h hwf op)
 
 theorem wf_empty : Heap.empty.WF := by intro u hu; simp [Heap.empty] at hu
+
+/-! ## vectorize=True: one invocation per row -/
+
+theorem allSome_eq_some {α} (l : List (Option α)) (ys : List α) (h : allSome l = some ys) : l = ys.map some := by
+  induction l generalizing ys with
+  | nil => simp [allSome] at h; subst h; rfl
+  | cons a t ih =>
+    cases a with
+    | none => simp [allSome] at h
+    | some x =>
+      simp only [allSome, Option.map_eq_some_iff] at h
+      obtain ⟨zs, hz, rfl⟩ := h
+      rw [ih zs hz]; rfl
+
+theorem allSome_of_forall {α} (l : List (Option α)) (h : ∀ x ∈ l, x.isSome) : ∃ ys, allSome l = some ys := by
+  induction l with
+  | nil => exact ⟨[], rfl⟩
+  | cons a t ih =>
+    obtain ⟨ys, hy⟩ := ih (fun x hx => h x (by simp [hx]))
+    cases a with
+    | none => have := h none (by simp); simp at this
+    | some x => exact ⟨x :: ys, by simp [allSome, hy]⟩
+
+/-- what invocation `i` must receive for one entry of the assembled dictionary: the same name, and row `i`
+    of a value that has the batch length, the whole value otherwise -/
+def RowOf (bs i : Nat) (kv : String × BVal) (ka : String × Arg) : Prop :=
+  ka.1 = kv.1 ∧ ((kv.2.length = bs ∧ ∃ v, kv.2[i]? = some v ∧ ka.2 = .row v) ∨ (kv.2.length ≠ bs ∧ ka.2 = .whole kv.2))
+
+/-- **row `i` goes to invocation `i`, under the same names**: for every `i` below the batch size the
+    invocation exists and each argument is related to its entry by `RowOf` (no name is added, dropped,
+    renamed or re-ordered; no row of another index is used). -/
+theorem rowArgs_ok (inp : List (String × BVal)) (bs i : Nat) (hi : i < bs) :
+    ∃ args, rowArgs inp bs i = some args ∧ List.Forall₂ (RowOf bs i) inp args := by
+  induction inp with
+  | nil => exact ⟨[], rfl, List.Forall₂.nil⟩
+  | cons kv t ih =>
+    obtain ⟨args, ha, hf⟩ := ih
+    unfold rowArgs at ha ⊢
+    by_cases hl : kv.2.length = bs
+    · have hlt : i < kv.2.length := by omega
+      refine ⟨(kv.1, .row kv.2[i]) :: args, ?_, ?_⟩
+      · simp [allSome, hl, List.getElem?_eq_getElem hlt, ha]
+      · exact List.Forall₂.cons ⟨rfl, Or.inl ⟨hl, kv.2[i], List.getElem?_eq_getElem hlt, rfl⟩⟩ hf
+    · refine ⟨(kv.1, .whole kv.2) :: args, ?_, ?_⟩
+      · simp [allSome, hl, ha]
+      · exact List.Forall₂.cons ⟨rfl, Or.inr ⟨hl, rfl⟩⟩ hf
+
+theorem foldl_max_spec (t : List (String × BVal)) (m0 : Nat) :
+    m0 ≤ t.foldl (fun m kv => max m kv.2.length) m0 ∧
+    (∀ kv ∈ t, kv.2.length ≤ t.foldl (fun m kv => max m kv.2.length) m0) ∧
+    (t.foldl (fun m kv => max m kv.2.length) m0 = m0 ∨ ∃ kv ∈ t, kv.2.length = t.foldl (fun m kv => max m kv.2.length) m0) := by
+  induction t generalizing m0 with
+  | nil => simp
+  | cons a t ih =>
+    simp only [List.foldl_cons]
+    obtain ⟨h1, h2, h3⟩ := ih (max m0 a.2.length)
+    refine ⟨by omega, ?_, ?_⟩
+    · intro kv hkv
+      simp only [List.mem_cons] at hkv
+      rcases hkv with rfl | hkv
+      · omega
+      · exact h2 kv hkv
+    · rcases h3 with h3 | ⟨kv, hkv, he⟩
+      · by_cases hm : a.2.length ≤ m0
+        · left; rw [h3]; omega
+        · right; exact ⟨a, by simp, by rw [h3]; omega⟩
+      · right; exact ⟨kv, by simp [hkv], he⟩
+
+/-- **the batch size is the largest number of rows** and is attained -/
+theorem batchSize_spec (inp : List (String × BVal)) (bs : Nat) (h : batchSize inp = some bs) :
+    (∀ kv ∈ inp, kv.2.length ≤ bs) ∧ ∃ kv ∈ inp, kv.2.length = bs := by
+  cases inp with
+  | nil => simp [batchSize] at h
+  | cons a t =>
+    simp only [batchSize, Option.some.injEq] at h
+    obtain ⟨h1, h2, h3⟩ := foldl_max_spec t a.2.length
+    rw [h] at h1 h2 h3
+    constructor
+    · intro kv hkv
+      simp only [List.mem_cons] at hkv
+      rcases hkv with rfl | hkv
+      · exact h1
+      · exact h2 kv hkv
+    · rcases h3 with h3 | ⟨kv, hkv, he⟩
+      · exact ⟨a, by simp, h3.symm⟩
+      · exact ⟨kv, by simp [hkv], he⟩
+
+/-- **one invocation per row, in row order**: a non-empty argument dictionary is evaluated exactly
+    `batch size` times, invocation `i` being `rowArgs … i`; an empty one is a ValueError (as in the code). -/
+theorem applyToBatch_spec (inp : List (String × BVal)) :
+    (inp = [] → applyToBatch inp = .error .valueError) ∧
+    (∀ bs, batchSize inp = some bs → ∃ rows, applyToBatch inp = .ok rows ∧ rows.length = bs ∧
+      ∀ i, i < bs → (rows[i]?).map some = some (rowArgs inp bs i)) := by
+  constructor
+  · intro h; subst h; rfl
+  · intro bs hbs
+    have hall : ∀ x ∈ (List.range bs).map (rowArgs inp bs), x.isSome := by
+      intro x hx
+      simp only [List.mem_map, List.mem_range] at hx
+      obtain ⟨i, hi, rfl⟩ := hx
+      obtain ⟨args, ha, _⟩ := rowArgs_ok inp bs i hi
+      simp [ha]
+    obtain ⟨rows, hr⟩ := allSome_of_forall _ hall
+    have he := allSome_eq_some _ _ hr
+    have hlen : rows.length = bs := by
+      have := congrArg List.length he
+      simpa using this.symm
+    refine ⟨rows, ?_, hlen, ?_⟩
+    · simp only [applyToBatch, hbs, hr]
+    · intro i hi
+      have h1 : ((List.range bs).map (rowArgs inp bs))[i]? = some (rowArgs inp bs i) := by
+        simp [hi]
+      rw [he] at h1
+      simpa using h1
+
+example : applyToBatch [("a", [10, 11, 12]), ("b", [20]), ("c", [30, 31, 32])] =
+    .ok [[("a", .row 10), ("b", .whole [20]), ("c", .row 30)], [("a", .row 11), ("b", .whole [20]), ("c", .row 31)],
+         [("a", .row 12), ("b", .whole [20]), ("c", .row 32)]] := by decide
 
 /-! ## the pinned snapshot: one `defaults={}` object shared by all constructions -/
 
